@@ -942,7 +942,9 @@ fn shutdown_mode(inputs: &[Value], _seed: u64, si: usize, sn: usize, out: &mut T
         let _ = take_events();
         let store = StubStore::default();
         *GATE.lock().unwrap() = (false, false);
-        let mut srv = start_server(store.clone(), 16);
+        // max_connections: plenty, or exactly the number of clients (the listener then waits for a permit)
+        let maxc = inp["max"].as_u64().unwrap_or(16) as usize;
+        let mut srv = start_server(store.clone(), maxc);
         let mut tl = Timeline::default();
         let mut clients: Vec<(String, TcpStream, Vec<u8>, usize)> = vec![]; // state, socket, received so far, acked sets
         let mut cnames: Vec<String> = vec![];
@@ -973,6 +975,21 @@ fn shutdown_mode(inputs: &[Value], _seed: u64, si: usize, sn: usize, out: &mut T
                     tl.send(&cname, "half");
                     let _ = s.write_all(&seg);
                     let (b, _) = read_reply_bytes(&mut s, 1, Duration::from_secs(3));
+                    recv.extend(b);
+                }
+                "pipelined-partial-big" => {
+                    // the same with a reply larger than the server's write buffer
+                    let mid = vec![b'y'; 20000];
+                    tl.send(&cname, "set");
+                    let _ = s.write_all(&cmd(&[b"SET", b"mid", &mid]));
+                    let (b, _) = read_reply_bytes(&mut s, 1, Duration::from_secs(3));
+                    recv.extend(b);
+                    let mut seg = cmd(&[b"GET", b"mid"]);
+                    seg.extend_from_slice(b"*2\r\n$3\r\nGET\r\n$2\r\nz");
+                    tl.send(&cname, "get");
+                    tl.send(&cname, "half");
+                    let _ = s.write_all(&seg);
+                    let (b, _) = read_reply_bytes(&mut s, 1, Duration::from_millis(600));
                     recv.extend(b);
                 }
                 "mid-command" => {
@@ -1046,7 +1063,7 @@ fn shutdown_mode(inputs: &[Value], _seed: u64, si: usize, sn: usize, out: &mut T
         let hooks = take_events();
         srv.stop();
         pend.clear();
-        out.emit(&json!({"ev": "shutdown", "states": states, "max": 16, "timeline": tl.merged(&hooks), "returned": ret.is_some(), "return_ms": ret.map(|d| d.as_millis() as i64).unwrap_or(-1),
+        out.emit(&json!({"ev": "shutdown", "states": states, "max": maxc, "timeline": tl.merged(&hooks), "returned": ret.is_some(), "return_ms": ret.map(|d| d.as_millis() as i64).unwrap_or(-1),
                          "clients": cl_out, "store": final_store,
                          "hooks": hooks.iter().filter(|e| e["name"].as_str().unwrap_or("").starts_with("srv.")).cloned().collect::<Vec<_>>()}));
         n += 1;
